@@ -28,4 +28,5 @@ run T6 NONE || fail=1
 run T7 notalways || fail=1
 run T8 NONE || fail=1
 run T9 NONE || fail=1
+run T10 NONE || fail=1
 exit $fail
